@@ -137,11 +137,11 @@ theorem rangeOK_sound {e : Env} (hf : FoldOK e) {a b : Nat × Nat} (h : rangeOK 
   · rw [beq_iff_eq] at h; subst h; rfl
   · exact rangeCiEq_sound hf h r
 
-/-- a ci class with a single range is that range's ci closure -/
-theorem cls_single_mem (e : Env) (a : Nat × Nat) (r : Nat) :
-    (Cls.base false [a] []).mem e true r = ciRanges e [a] r := by
+/-- a ci class with a single range is that range's ci closure (complemented when negated) -/
+theorem cls_single_mem (e : Env) (neg : Bool) (a : Nat × Nat) (r : Nat) :
+    (Cls.base neg [a] []).mem e true r = (ciRanges e [a] r != neg) := by
   unfold ciRanges
-  simp only [Cls.mem, inNames, List.any_nil, Bool.or_false, Bool.true_and, Bool.bne_false]
+  simp only [Cls.mem, inNames, List.any_nil, Bool.or_false, Bool.true_and]
   cases e.partner r <;> rfl
 
 /-- a single class member (or any range) re-cased as a whole: `(c, c)` ↦ `(c', c')` with `c'` case-equal
@@ -306,3 +306,45 @@ theorem recase_allCi (e : Env) (p : Pat) : ∀ (ch : Choice), (recase e ch p).al
   | _ => intro ch; rfl
 
 end RegexVerif.Spec
+
+/-! ## a concrete instance for the non-vacuity examples: letters a/A b/B c/C x/X -/
+namespace RegexVerif.Spec.RecaseDemo
+open RegexVerif.Spec
+
+def env (text : List Nat) : Env :=
+  { text := text, textstart := 0, named := [], word := [97, 98, 99, 120, 65, 66, 67, 88, 95],
+    fold := [(97, 65), (65, 97), (98, 66), (66, 98), (99, 67), (67, 99), (120, 88), (88, 120)] }
+
+theorem foldOK (text : List Nat) : FoldOK (env text) := foldOK_of_check rfl
+
+/-- `(?i)[a-c-[b]]x` -/
+def pat : Pat :=
+  .seq (.chr (.set (.diff (.base false [(97, 99)] []) (.base false [(98, 98)] [])) true)) (.chr (.one 120 true))
+
+/-- `(?i)[A-C-[B]]X` -/
+def patUpper : Pat :=
+  .seq (.chr (.set (.diff (.base false [(65, 67)] []) (.base false [(66, 66)] [])) true)) (.chr (.one 88 true))
+
+/-- `(?i)[A-c-[b]]x` : only the lower endpoint of the range re-cased -/
+def patMixed : Pat :=
+  .seq (.chr (.set (.diff (.base false [(65, 99)] []) (.base false [(98, 98)] [])) true)) (.chr (.one 120 true))
+
+/-- re-case every letter -/
+def all : Choice := fun _ => true
+
+/-- re-case only the lower endpoint of range 0 of the left operand of the subtraction in the first
+    element of the concatenation (path `[0, 0]`, then `[0, 0]` = range 0, lower endpoint) -/
+def loOnly : Choice := fun path => path == [0, 0, 0, 0]
+
+/-- `(?i)[^a-b]+` and `(?i)[^A-B]+` -/
+def negPat : Pat := .quant false 1 none (.chr (.set (.base true [(97, 98)] []) true))
+def negPatUpper : Pat := .quant false 1 none (.chr (.set (.base true [(65, 66)] []) true))
+
+/-- "Ax", "bx", "_x", "xCaB" -/
+def tAx : List Nat := [65, 120]
+def tbx : List Nat := [98, 120]
+def tUx : List Nat := [95, 120]
+def tNeg : List Nat := [120, 67, 97, 66]
+def tNeg' : List Nat := [88, 99, 65, 98]
+
+end RegexVerif.Spec.RecaseDemo
